@@ -208,8 +208,12 @@ fn clamp(n: usize) -> i64 {
     if (n as u64) < BIG as u64 { n as i64 } else { BIG }
 }
 /// The library call itself.  The value returned is what the caller of the API sees.
-fn execute(p: Prepared) -> i64 {
+#[allow(deprecated)]
+fn execute(p: Prepared, alias: bool) -> i64 {
     match p {
+        // the crate root still exports the deprecated aliases of the two value setters: same cells
+        Prepared::SetMax(n) if alias => clamp(apache_avro::max_allocation_bytes(n)),
+        Prepared::SetHr(b) if alias => apache_avro::set_serde_human_readable(b) as i64,
         Prepared::SetMax(n) => clamp(max_allocation_bytes(n)),
         Prepared::Decode(d) => {
             // human_readable is given explicitly: the builder's default would read the humanReadable cell
@@ -251,7 +255,7 @@ struct Logged {
 fn run_op(t: usize, o: &Op, log: &mut Vec<Logged>) {
     let p = prepare(o);
     let s1 = stamp();
-    let val = guarded(std::panic::AssertUnwindSafe(|| execute(p))).unwrap_or(-9);
+    let val = guarded(std::panic::AssertUnwindSafe(|| execute(p, t % 2 == 1))).unwrap_or(-9);
     let s2 = stamp();
     log.push(Logged { seq: s1, line: json!({"ev":"call","t":t,"op": if o.set {"set"} else {"use"},"c":CELLS[o.c],"arg":o.arg,"seq":s1}) });
     log.push(Logged { seq: s2, line: json!({"ev":"ret","t":t,"val":val,"seq":s2}) });
@@ -489,7 +493,7 @@ fn cmd_gen(seed: u64, count: usize, max_threads: usize, max_ops: usize, out: &st
 // ------------------------------------------------------------------------------------------------
 fn cmd_touch1(prog: &J) -> i32 {
     let o = op_of(prog);
-    let _ = guarded(std::panic::AssertUnwindSafe(|| execute(prepare(&o))));
+    let _ = guarded(std::panic::AssertUnwindSafe(|| execute(prepare(&o), o.arg % 2 == 1)));
     let mut touched: Vec<&str> = Vec::new();
     if max_allocation_bytes(777_777) != 777_777 {
         touched.push(CELLS[0]);
